@@ -208,3 +208,60 @@ func verifC02Gov(ctx context.Context) {
 		}
 	}
 }
+
+// C02: the node's own observation is part of the quorum "its own included": it reaches the aggregation even if the
+// inbound observation queue is full at the moment the message is observed (the processor must neither stall on its own
+// queue nor drop its own observation), and re-observing the message later leaves the entry's retry bookkeeping alone
+// (idempotence: the retry / expiry schedule of C14 counts from the first observation).
+func VerifC02_Loopback() { zzverif.Supervised(verifC02Loopback) }
+
+func verifC02Loopback(ctx context.Context) {
+	n := zzverif.Len("n", 1, 2)
+	p := verifNewProcessor(0)
+	p.gs = verifSet(zzverif.U32("gsidx"), verifRange(0, n)...)
+	k := verifMessage("m")
+	zzverif.Assume(!verifIsGov(k) && len(k.Payload) > 0)
+	full := zzverif.Len("obsvQueueFull", 0, 1) == 1
+	junk := &gossipv1.SignedObservation{}
+	if full {
+		for len(p.obsvC) < cap(p.obsvC) {
+			p.obsvC <- junk
+		}
+	}
+	zzverif.MustNotBlock(func() { zzverif.NoPanic(func() { p.handleMessage(ctx, k) }) })
+	// the processor's main loop keeps consuming its queue
+	var loop *gossipv1.SignedObservation
+	for i := 0; i < cap(p.obsvC)+2 && loop == nil; i++ {
+		o := verifRecvObs(p)
+		if o == nil {
+			zzverif.Settle()
+			if o = verifRecvObs(p); o == nil {
+				break
+			}
+		}
+		if o != junk {
+			loop = o
+		}
+	}
+	zzverif.Assert(loop != nil, "own-observation-looped-back-even-when-the-queue-was-full")
+	if loop == nil {
+		return
+	}
+	zzverif.NoPanic(func() { p.handleObservation(ctx, loop) })
+	_, err := p.db.GetSignedVAABytes(verifIDOf(k))
+	zzverif.Assert((err == nil) == (n == 1), "published-exactly-when-own-observation-completes-the-quorum")
+	zzverif.Assert(len(p.state.vaaSignatures) == 1, "one-aggregation-entry")
+	var before vaaState
+	var key string
+	for h, s := range p.state.vaaSignatures {
+		key, before = h, *s
+	}
+	zzverif.NoPanic(func() { p.handleMessage(ctx, k) })
+	after := p.state.vaaSignatures[key]
+	zzverif.Assert(after != nil && len(p.state.vaaSignatures) == 1, "re-observation-keeps-the-entry")
+	if after != nil {
+		zzverif.Assert(after.firstObserved.Equal(before.firstObserved) && after.lastRetry.Equal(before.lastRetry) && after.retryCount == before.retryCount &&
+			after.submitted == before.submitted && after.settled == before.settled, "re-observation-leaves-the-retry-schedule-alone")
+	}
+	zzverif.Reach("end")
+}
